@@ -1,4 +1,3 @@
-from math import ceil
 from typing import Optional
 from typing import Tuple
 
@@ -88,7 +87,7 @@ class VasicekRate(BasePrimary):
 
         spot = generate_vasicek(
             n_paths=n_paths,
-            n_steps=ceil(time_horizon / self.dt + 1),
+            n_steps=self._get_n_steps(time_horizon),
             init_state=init_state,
             kappa=self.kappa,
             theta=self.theta,
